@@ -2,15 +2,16 @@
 EXTENDS ParseInt, ParseIntBoundary, Json, IOUtils, SequencesExt
 CONSTANTS MaxTokens, SmallRange
 
-\* tokens: digits 0 1 2 5 9, '-', '+', 'a', ' ', ARABIC-INDIC DIGIT THREE (non-ASCII digit)
-Tokens == {<<48>>, <<49>>, <<50>>, <<53>>, <<57>>, <<45>>, <<43>>, <<97>>, <<32>>, <<217, 163>>}
+\* tokens: digits 0 1 2 5 9, '-', '+', 'a', ' ', ARABIC-INDIC DIGIT THREE (non-ASCII digit),
+\* and the ASCII neighbours of the digit range: '/' (0x2F) and ':' (0x3A)
+Tokens == {<<48>>, <<49>>, <<50>>, <<53>>, <<57>>, <<45>>, <<43>>, <<97>>, <<32>>, <<217, 163>>, <<47>>, <<58>>}
 TokenStrs == {Concat(ts) : ts \in SeqsUpTo(Tokens, MaxTokens)}
 
 \* decimal text of a natural number
 RECURSIVE Dec(_)
 Dec(n) == IF n < 10 THEN <<48 + n>> ELSE Dec(n \div 10) \o <<48 + (n % 10)>>
 Forms(n) == {Dec(n), <<48, 48>> \o Dec(n), <<45>> \o Dec(n), <<45, 48>> \o Dec(n), <<43>> \o Dec(n),
-             Dec(n) \o <<97>>, <<45>> \o Dec(n) \o <<32>>}
+             Dec(n) \o <<97>>, <<45>> \o Dec(n) \o <<32>>, Dec(n) \o <<58>>, Dec(n) \o <<47>> \o Dec(n)}
 SmallStrs == UNION {Forms(n) : n \in 0..SmallRange}
 
 MCInputs == TokenStrs \cup SmallStrs \cup BoundaryStrs
